@@ -64,7 +64,7 @@ def seeded():
         rows.append(m)
     if not rows:
         return '*No seeded change has been confirmed yet.*'
-    out = [f'Three rounds, one change per property per round (60), and a fourth, partial round of {len(rows)-60} more run by a later session with the checks as they stood (no strengthening was needed: each was reported on the first run with a concrete input) — {len(rows)} in all. Each change was written by a fresh sub-agent that saw only the '
+    out = [f'Three rounds, one change per property per round (60), and a fourth, partial round of {len(rows)-60} more run by a later session against the checks as they stood (C02, C09, C11, C14, C18 were reported on the first run with concrete inputs; C04 was missed and its check strengthened, see its row) — {len(rows)} in all. Each change was written by a fresh sub-agent that saw only the '
            'property text and its own scratch worktree of /repo (rounds 2 and 3 were also told which changes had already been used, so that '
            'they picked a different function and clause), confirmed by the integrator in that worktree (`tools_seed.sh`: the existing suite still '
            'passes; the demo fails with the change and passes without it; the C extension is rebuilt around the demo when the C source changed), '
